@@ -861,12 +861,15 @@ class from_iterable(Source):
         super().__init__(**kwargs)
 
     async def run(self):
-        for x in self._iterable:
-            if self.stopped:
+        iterator = iter(self._iterable)
+        # look at the flag before taking an item: an item taken from an
+        # iterator and then not emitted would be lost
+        while not self.stopped:
+            try:
+                x = next(iterator)
+            except StopIteration:
                 break
             await asyncio.gather(*self._emit(x))
-            if self.stopped:
-                break
         self.stopped = True
 
 
